@@ -33,6 +33,7 @@ import CtyModel.Lemmas.d20Conc
 import CtyModel.Lemmas.d20Strict
 import CtyModel.Lemmas.d20Pure
 import CtyModel.Lemmas.d20Marks
+import CtyModel.Lemmas.d20Fuel
 namespace CtyModel
 namespace C20
 open Heap
@@ -283,10 +284,55 @@ theorem strict_iff_all_applied (st : St) (ops : List HeapOp) :
     (runStrict st ops).isSome = true ↔ applied st ops = ops.length :=
   runStrict_isSome_iff ops st
 
+/-- **Calls on value registers of the right kind apply** — in every state a history
+from the empty state reaches (documented ownership rules respected): `AsBigFloat`,
+`Negate`, `Add` on number values; `Marks`, `Unmark`, `Mark`, `WithSameMarks` on any
+value.  The storage they read exists and has the right kind because every value is
+made of library-owned storage (`values_frozen`): for these entry points no history is
+carried by a skipped step.  (For the other entry points applicability also depends on
+oracle columns — hashes, orders — and is observed, not proved: a call the real code
+executes and the model skips prints `!` and is a correspondence mismatch.) -/
+theorem value_calls_apply (ops : List HeapOp) (hd : docRespectfulRun {} ops = true) :
+    (∀ v w t t' a b, (run {} ops).val v = some (t, .num a) → (run {} ops).val w = some (t', .num b) →
+      (step (run {} ops) (.api (.asBigFloat v))).isSome = true ∧
+      (step (run {} ops) (.api (.opNegate v))).isSome = true ∧
+      (step (run {} ops) (.api (.opAdd v w))).isSome = true) ∧
+    (∀ v w t p t' q mk, (run {} ops).val v = some (t, p) → (run {} ops).val w = some (t', q) →
+      (step (run {} ops) (.api (.marks v))).isSome = true ∧
+      (step (run {} ops) (.api (.unmark v))).isSome = true ∧
+      (step (run {} ops) (.api (.mark v mk))).isSome = true ∧
+      (step (run {} ops) (.api (.withSameMarks v w))).isSome = true) :=
+  have hi := (run_inv ops {} inv_empty hd).1
+  ⟨fun _ _ _ _ _ _ hv hw => number_calls_apply hi hv hw,
+   fun _ _ _ _ _ _ mk hv hw => mark_calls_apply hi mk hv hw⟩
+
 /-- the hypotheses are satisfiable by non-trivial histories: the witnesses of the
 `_counterexample`s below are strict up to the offending mutation -/
 example : (runStrict {} walkPre).isSome = true ∧ (runStrict {} tupleElementTypesPre).isSome = true ∧
     (runStrict {} pathSetListPre).isSome = true ∧ docRespectfulRun {} walkPre = true := by decide
+
+/-! ## 2c. Fuel
+
+`fp`, `frozen` recurse on a fuel argument (`fp 0 = [.cut]`, `frozen 0 = true`).  The
+theorems above hold for EVERY fuel, and a fingerprint without `.cut` is final: -/
+
+/-- **A complete fingerprint is the fingerprint for every larger fuel** — so an
+equation between complete fingerprints is an equation between the deep contents, not
+an artefact of the fuel running out on both sides; and `Equivalent` of the set model
+(`equivW`, fuel `eqFuel = 12`) answers the same with any larger fuel on members whose
+fingerprints are complete.  (The driver prints fingerprints with fuel 24; a `#cut` in
+its output can never equal what the real code printed.) -/
+theorem fingerprint_fuel_irrelevant {f f' : Nat} (hle : f ≤ f') (m : Mem) (w : Word)
+    (h : Tok.cut ∉ fp f m w) :
+    fp f' m w = fp f m w ∧
+    ∀ y, eqFuel ≤ f → Tok.cut ∉ fp eqFuel m w → Tok.cut ∉ fp eqFuel m y →
+      equivWf f m w y = equivW m w y :=
+  ⟨fp_fuel_le hle m w h, fun y hf hw hy => equivW_fuel hf m w y hw hy⟩
+
+/-- every value and Go object of the deepest witness history (four nested lists, a
+walk four levels deep) has a complete fingerprint at fuel 8 -/
+example : ((run {} walkPre).vals ++ (run {} walkPre).gos).all
+    (fun w => !(fp 8 (run {} walkPre).mem w).contains .cut) = true := by decide
 
 /-! ## 3. Accessors do not let internals escape -/
 
